@@ -577,6 +577,9 @@ func init() {
 		Run: func(c *ev.Ctx) {
 			c.Rule = "RewardForRelaysPerChain and the fee distribution of BeginBlocker on the real keepers (each evaluation on a discarded cache branch of a real chain state, parameters written to the real param store) for DAO/proposer allocation pairs x stake-weight settings x multipliers (incl. a per-chain multiplier) x relay counts x two nodes (custodial / non-custodial output) x ten delegator maps (none, 1%, 100%, 50/50, 33/33/33, 99/1, delegator = output, delegator = operator, 25 delegators): supply growth = computed reward = exact floor(multiplier x relays x weight) (float-bounded for fractional exponents); fee part = floor(reward x (dao+proposer)/100); every watched balance changes by exactly its expected share (operator: reward cost; delegators: floor(share%); output: remainder); collected fees leave the fee collector completely, DAO part within 1 of the exact proportion, proposer part split like a reward"
 			n := 16
+			if c.Tier == "thorough" {
+				n = 160 // the thorough enumeration is ~20x larger: keep every shard a short job
+			}
 			var shards []map[string]string
 			for i := 0; i < n; i++ {
 				shards = append(shards, map[string]string{"shard": fmt.Sprint(i), "shards": fmt.Sprint(n), "tier": c.Tier})
